@@ -92,44 +92,4 @@ Proof.
   repeat (apply andb_true_iff; split); assumption.
 Qed.
 
-Variable tab_el tab_en : nametab.
-Variable LATEST : N.
-Variable root_attrs : list (N * cdata).
-Notation Known05 := (Known05 T tab_el tab_en check_fn LATEST root_attrs).
-Notation Known05a := (Known05a T tab_el tab_en check_fn LATEST root_attrs).
-
-Ltac wk H := lazymatch type of H with
-  | wbind ?m ?k ?w = Val (OK ?r, ?w') =>
-    let a := fresh "a" in let w1 := fresh "w" in let E := fresh "E" in let e := fresh "e" in let Q := fresh "Q" in
-    apply wbind_inv in H as [(a & w1 & E & H) | (e & E & Q)]; [ try ro_subst E | discriminate Q ]
-  end.
-
-Lemma known05_copy h other w r w' :
-  TreeFacts w -> Inv04 w -> Known05a w (OpCopy h other) = false ->
-  e_create_copied_sub_element T LATEST h other w = Val (r, w') -> Known05 w (OpCopy h other) = false.
-Proof.
-  intros HF HI HK5 H. cbn [Refs.Known05 RefsAll.Known05a run_op] in *. unfold welem, wbind in *. rewrite H in *.
-  destruct r as [c|e]; [|exact HK5]. cbn in *. apply negb_false_iff in HK5. apply negb_false_iff.
-  unfold e_create_copied_sub_element in H. destruct (h =? other); [discriminate H|].
-  wk H. wk H. unfold raw_create_copied_sub_element in H.
-  wk H. match goal with E : get_node h w = _ |- _ => apply get_node_inv in E as (n & Hn & Q & _); injection Q as -> end.
-  wk H. wk H. match goal with E : calc_element_insert_range T n _ _ w = Val (OK ?rr, _) |- _ => destruct rr as (rs, re) end.
-  match goal with E : model_of h w = Val (OK ?mm, w) |- _ => rename E into Emod; rename mm into m end.
-  eapply copy_clean_a_full; eauto. apply model_of_mreach; assumption.
-Qed.
-Lemma known05_copy_at h other pos w r w' :
-  TreeFacts w -> Inv04 w -> Known05a w (OpCopyAt h other pos) = false ->
-  e_create_copied_sub_element_at T LATEST h other pos w = Val (r, w') -> Known05 w (OpCopyAt h other pos) = false.
-Proof.
-  intros HF HI HK5 H. cbn [Refs.Known05 RefsAll.Known05a run_op] in *. unfold welem, wbind in *. rewrite H in *.
-  destruct r as [c|e]; [|exact HK5]. cbn in *. apply negb_false_iff in HK5. apply negb_false_iff.
-  unfold e_create_copied_sub_element_at in H. destruct (h =? other); [discriminate H|].
-  wk H. wk H. unfold raw_create_copied_sub_element_at in H.
-  wk H. match goal with E : get_node h w = _ |- _ => apply get_node_inv in E as (n & Hn & Q & _); injection Q as -> end.
-  wk H. wk H. match goal with E : calc_element_insert_range T n _ _ w = Val (OK ?rr, _) |- _ => destruct rr as (rs, re) end.
-  destruct ((rs <=? pos) && (pos <=? re)); [|discriminate H].
-  match goal with E : model_of h w = Val (OK ?mm, w) |- _ => rename E into Emod; rename mm into m end.
-  eapply copy_clean_a_full; eauto. apply model_of_mreach; assumption.
-Qed.
-
 End CopyA.
